@@ -204,3 +204,20 @@ func SameSegs(a, b []Seg) bool {
 	}
 	return true
 }
+
+// Kern returns the kerning of the glyph pair in font units as x/image finds it
+// in the GPOS table (PairPos formats 1 and 2 under a kern feature of the latn
+// or DFLT script).  found is false if x/image reports ErrNotFound.
+func (f *Font) Kern(a, b int) (kern int, found bool, err error) {
+	v, err := f.F.Kern(&f.buf, xsfnt.GlyphIndex(a), xsfnt.GlyphIndex(b), fixed.I(f.Upm), font.HintingNone)
+	if err == xsfnt.ErrNotFound {
+		return 0, false, nil
+	}
+	if err != nil {
+		return 0, false, err
+	}
+	if v%64 != 0 {
+		return 0, false, fmt.Errorf("ximg: kern %d not integral", v)
+	}
+	return int(v / 64), true, nil
+}
